@@ -9,8 +9,8 @@
      opposite pl a b          a and b strictly on opposite sides
      spec_points pl pre run post        [entry extension] ++ run ++ [exit extension]  (enter / leave)
      closed_spec_points pl run rest     the same with the neighbours taken cyclically: before = last rest, after = first rest
-   The model (coq/model/M_polyline_slice.v) is the code with fixes/C06-closed-slice.diff and
-   fixes/C06-crossing-from-signed-distances.diff.  `sliced_by_plane` is the vertex array of the result,
+   The model (coq/model/M_polyline_slice.v) is the code of /repo including the repairs b8558f7 (closed roll) and
+   eedfc5c (crossing point from the signed distances).  `sliced_by_plane` is the vertex array of the result,
    `sliced_polyline` the returned value (rows + is_closed flag), see C06_result_is_open.
    Binary64: the theorems are over the reals.  That a vertex within rounding error of the plane still gives finite
    rows is checked on sampled inputs (near_plane / near_oblique streams), not proved. *)
@@ -24,6 +24,13 @@ Local Open Scope R_scope.
 (* the sign the code branches on is the sign of the signed distance *)
 Theorem C06_in_front_iff : forall pl v, in_front pl v <-> 0 < plane_sd ROps pl v.
 Proof. exact in_front_iff. Qed.
+
+(* "lies on the plane": the sign the spec's enter / leave test is 0 exactly when the signed distance is 0; and the
+   third possibility is strictly behind *)
+Theorem C06_on_plane_iff : forall pl v,
+  (plane_sign ROps pl v = 0%Z <-> plane_sd ROps pl v = 0) /\ (plane_sign ROps pl v = (-1)%Z <-> plane_sd ROps pl v < 0) /\
+  (plane_sign ROps pl v = 1%Z \/ plane_sign ROps pl v = 0%Z \/ plane_sign ROps pl v = (-1)%Z).
+Proof. intros pl v. exact (conj (sign_zero pl v) (conj (sign_neg pl v) (sign_range pl v))). Qed.
 
 (* the crossing point (computed from the two signed distances): for endpoints strictly on opposite sides the
    parameter is strictly inside (0,1) ... *)
@@ -40,7 +47,7 @@ Theorem C06_crossing_on_plane : forall pl a b,
 Proof. exact crossing_on_plane. Qed.
 
 (* ... and it is the point intersect_segment_with_plane returns for the same segment (the mechanism the code used
-   before fixes/C06-crossing-from-signed-distances.diff; over the reals the two agree) *)
+   before /repo eedfc5c; over the reals the two agree) *)
 Theorem C06_crossing_agrees_with_intersect_segment : forall pl a b, opposite pl a b ->
   intersect_segment_with_plane ROps a (vsub ROps b a) (pref pl) (pnormal pl) = XPt (crossing pl a b).
 Proof. exact crossing_is_segment_plane_intersection. Qed.
@@ -84,6 +91,13 @@ Theorem C06_interior_vertices_identical : forall pl p rows,
     exists x y pre post, pv p = x ++ y /\ y ++ x = pre ++ run ++ post.
 Proof. exact interior_vertices_identical. Qed.
 
+(* the only exception the model ever raises is ValueError *)
+Theorem C06_only_value_error : forall pl p e,
+  sliced_by_plane ROps pl p = Raise e -> e = ValueError.
+Proof. exact only_value_error. Qed.
+
+(* ---- definitional: pins the shape of the specification / of the model's return value; the content is carried by
+   the theorems above and, for the is_closed flag, by the traced structure and the correspondence ---- *)
 (* what is returned is an OPEN polyline whose vertex rows are the rows characterised above; exceptions unchanged *)
 Theorem C06_result_is_open : forall pl p,
   (forall r, sliced_polyline ROps pl p = Ok r -> s_closed r = false /\ sliced_by_plane ROps pl p = Ok (s_rows r)) /\
@@ -91,12 +105,24 @@ Theorem C06_result_is_open : forall pl p,
   (forall e, sliced_polyline ROps pl p = Raise e <-> sliced_by_plane ROps pl p = Raise e).
 Proof. exact result_is_open. Qed.
 
-(* the only exception the model ever raises is ValueError *)
-Theorem C06_only_value_error : forall pl p e,
-  sliced_by_plane ROps pl p = Raise e -> e = ValueError.
-Proof. exact only_value_error. Qed.
+(* the specification vocabulary unfolded once (coq/model/M_polyline_slice_spec.v cannot drift unnoticed) *)
+Theorem C06_spec_vocabulary : forall pl (vs pre run post rest : list (vec3 R)) a b,
+  (open_split (plane_sign ROps pl) vs pre run post <->
+     vs = pre ++ run ++ post /\ run <> [] /\ Forall (in_front pl) run /\ Forall (fun v => ~ in_front pl v) (pre ++ post)) /\
+  (cyclic_split (plane_sign ROps pl) vs run rest <->
+     (exists x y, vs = x ++ y /\ y ++ x = run ++ rest) /\ run <> [] /\ rest <> [] /\
+     Forall (in_front pl) run /\ Forall (fun v => ~ in_front pl v) rest) /\
+  spec_points pl pre run post =
+    enter (plane_sign ROps pl) (fun v => v) (crossing pl) (olast pre) (hd_error run) ++ run ++
+    leave (plane_sign ROps pl) (fun v => v) (crossing pl) (olast run) (hd_error post) /\
+  closed_spec_points pl run rest =
+    enter (plane_sign ROps pl) (fun v => v) (crossing pl) (olast rest) (hd_error run) ++ run ++
+    leave (plane_sign ROps pl) (fun v => v) (crossing pl) (olast run) (hd_error rest) /\
+  crossing pl a b =
+    vadd ROps a (vscale ROps (plane_sd ROps pl a / (plane_sd ROps pl a - plane_sd ROps pl b)) (vsub ROps b a)) /\
+  (opposite pl a b <-> (plane_sd ROps pl a < 0 /\ 0 < plane_sd ROps pl b) \/ (plane_sd ROps pl b < 0 /\ 0 < plane_sd ROps pl a)).
+Proof. exact spec_vocabulary. Qed.
 
-(* ---- definitional: pins the shape of the specification; the content is carried by the theorems above ---- *)
 (* the extension rows spelled out: nothing at a path end, the neighbour when it is on the plane, else the crossing *)
 Theorem C06_extension_points : forall pl before first lastv after,
   enter (plane_sign ROps pl) (fun v => v) (crossing pl) before first =
@@ -136,5 +162,5 @@ Proof. left. unfold xplane. split; punf; lra. Qed.
 Definition C06_all := (C06_in_front_iff, C06_extension_points, C06_crossing_param_in_unit_interval,
   C06_crossing_row_is_point, C06_crossing_on_plane, C06_crossing_agrees_with_intersect_segment, C06_slice_open_refines_spec, C06_sliced_open_refines_spec,
   C06_sliced_closed_refines_spec, C06_result_finite_not_behind, C06_interior_vertices_identical,
-  C06_only_value_error, C06_result_is_open).
+  C06_only_value_error, C06_result_is_open, C06_on_plane_iff, C06_spec_vocabulary).
 Print Assumptions C06_all.
